@@ -113,17 +113,17 @@ func (s *seq) Length() int {
 func (s *seq) LongestORF() (start, end int) {
 	start = -1
 	end = -1
-	re, _ := regexp.Compile("(ATG)(.{3})*?(TAA|TGA|TAG)")
-	//re.Longest()
-	idx := re.FindAllStringIndex(
-		strings.Replace(
-			strings.ToUpper(string(s.sequence)),
-			"U", "T", -1),
-		-1)
-	for _, pos := range idx {
-		if pos[1]-pos[0] > end-start {
-			end = pos[1]
-			start = pos[0]
+	// The expression is anchored and tried at every position: non overlapping
+	// matches over the whole sequence would hide an ORF that starts, in another
+	// frame, inside a previous (shorter) one
+	re, _ := regexp.Compile("^(ATG)(.{3})*?(TAA|TGA|TAG)")
+	str := strings.Replace(
+		strings.ToUpper(string(s.sequence)),
+		"U", "T", -1)
+	for i := 0; i+6 <= len(str); i++ {
+		if pos := re.FindStringIndex(str[i:]); pos != nil && pos[1]-pos[0] > end-start {
+			start = i + pos[0]
+			end = i + pos[1]
 		}
 	}
 	return start, end
